@@ -66,7 +66,7 @@ def variants(row, tier):
     d = ("default", "default", "memory", "string", 1)
     out = [d]
     axes = [
-        [("oblique",), ("nonterm",), ("pseudo",), ("eq_ab",), ("eq_bc",), ("eq_ac",)],
+        [("oblique",), ("nonterm",), ("pseudo",), ("long_obtuse",), ("eq_ab",), ("eq_bc",), ("eq_ac",)],
         [("two_letter",), ("twelve",), ("one_atom",), ("half_occ",), ("occ_values",), ("precise",), ("far",), ("misleading_labels",)],
         [("from_cif",), ("from_res",), ("from_rich_cif",)],
         [("file",)],
@@ -77,14 +77,21 @@ def variants(row, tier):
             v = list(d)
             v[ai] = alt[0]
             out.append(tuple(v))
+    pairs = []
+    for (a1, alts1), (a2, alts2) in itertools.combinations(list(enumerate(axes)), 2):
+        for x in alts1:
+            for y in alts2:
+                v = list(d)
+                v[a1] = x[0]
+                v[a2] = y[0]
+                pairs.append(tuple(v))
     if tier == "thorough":
-        for (a1, alts1), (a2, alts2) in itertools.combinations(list(enumerate(axes)), 2):
-            for x in alts1:
-                for y in alts2:
-                    v = list(d)
-                    v[a1] = x[0]
-                    v[a2] = y[0]
-                    out.append(tuple(v))
+        out += pairs
+    else:
+        # pairwise interactions in the quick tier: every setting takes three of the 125 two-deviation variants in rotation, so that every
+        # PAIR of non-default axis values is explored in about a dozen settings (and every (setting, single deviation) pair completely)
+        k = row.get("_index", row["number"] * 7 + row["index_in_number"])
+        out += [pairs[(3 * k + j) % len(pairs)] for j in range(3)]
     return out
 
 
@@ -113,6 +120,8 @@ def cell_for(row, cellvar):
         return cells[0]
     if cellvar == "oblique":
         return cells[1]
+    if cellvar == "long_obtuse":
+        return lattice.long_obtuse_cell(row["number"], row["choice"])      # a long axis together with obtuse angles (components below -10, above 100)
     if cellvar == "pseudo":
         return lattice.pseudo_special_cell(row["number"], row["choice"])    # free parameters a hair off whole numbers / 90 / 120 degrees
     return nonterminating(cells[0])
